@@ -54,6 +54,7 @@ type agg struct {
 	evals     int
 	keys      map[string]struct{}
 	nontriv   map[string]struct{}
+	ntCases   int
 	states    map[string]struct{}
 	ilv       map[uint64]struct{}
 	probes    map[string]int
@@ -85,7 +86,14 @@ func (a *agg) add(idx int, resp *Response) {
 	a.evals++
 	a.keys[r.Key] = struct{}{}
 	if r.Nontrivial {
-		a.nontriv[r.Key] = struct{}{}
+		if _, dup := a.nontriv[r.Key]; !dup {
+			a.nontriv[r.Key] = struct{}{}
+			if r.Cases > 0 {
+				a.ntCases += r.Cases
+			} else {
+				a.ntCases++
+			}
+		}
 	}
 	for _, s := range r.States {
 		a.states[s] = struct{}{}
@@ -343,7 +351,7 @@ func (d *Driver) loadFindings() FindingsFile {
 // shrink minimises sc while signature sig persists. Candidates run in fresh processes.
 func (d *Driver) shrink(e Engine, sc *Scenario, sig string, stats *shrinkStats) *Scenario {
 	cur := sc
-	deadline := time.Now().Add(90 * time.Second)
+	deadline := time.Now().Add(45 * time.Second)
 	for round := 0; round < 200 && time.Now().Before(deadline); round++ {
 		cands := e.Shrinks(cur)
 		if len(cands) == 0 {
@@ -383,6 +391,14 @@ func (d *Driver) shrink(e Engine, sc *Scenario, sig string, stats *shrinkStats) 
 		}
 	}
 	return cur
+}
+
+// shrinkBudget bounds the time a check spends minimising (all signatures together).
+func shrinkBudget(tier string) time.Duration {
+	if tier == "thorough" {
+		return 20 * time.Minute
+	}
+	return 3 * time.Minute
 }
 
 type shrinkStats struct {
@@ -456,7 +472,7 @@ func (d *Driver) Check() int {
 			}
 		}
 		min := &exp
-		if k < 12 {
+		if k < 12 && time.Since(t0) < shrinkBudget(d.Tier) {
 			min = d.shrink(e, &exp, sig, &sstats)
 		}
 		min.Expect = sig
@@ -505,7 +521,7 @@ func (d *Driver) Check() int {
 
 	wall := time.Since(t0).Seconds()
 	d.writeEvidence(e, a, done, n, stopped, wall, exploreWall.Seconds(), nviol, detChecked, sstats, reported)
-	fmt.Fprintf(d.Out, "verif: %s %s seed=%d: %d runs, %d distinct non-trivial, %d violations, %.1fs\n", d.Prop, d.Tier, d.Seed, done, len(a.nontriv), nviol, wall)
+	fmt.Fprintf(d.Out, "verif: %s %s seed=%d: %d runs, %d distinct non-trivial, %d violations, %.1fs\n", d.Prop, d.Tier, d.Seed, done, a.ntCases, nviol, wall)
 	return exit
 }
 
@@ -569,7 +585,7 @@ func (d *Driver) writeEvidence(e Engine, a *agg, done, planned int, stopped bool
 	desc := e.Describe(d.Prop)
 	cov := map[string]any{
 		"evaluations":         done,
-		"distinct_nontrivial": len(a.nontriv),
+		"distinct_nontrivial": a.ntCases,
 		"rule":                desc.Rule,
 		"samples":             a.samples,
 		"planned_runs":        planned,
